@@ -136,14 +136,21 @@ fn frame_bytes(cfg: &CfgSpec, fb: &FrameBuf, si: &StreamInfo, cap: usize) -> Res
     Ok(sink.into_inner())
 }
 
-fn do_fill<F: Fill>(dest: &mut F, block: &[i32], bps: usize) -> Result<(), String> {
+/// `off`: the byte slice starts `off` bytes into its allocation (address parity / alignment of the slice
+/// is the peer's business: a reader hands over whatever part of its buffer holds the block).
+fn do_fill_at<F: Fill>(dest: &mut F, block: &[i32], bps: usize, off: usize) -> Result<(), String> {
     if bps == 0 {
         dest.fill_interleaved(block).map_err(|e| format!("{e}"))
     } else {
         let mut bb = vec![];
         to_le_bytes(block, bps, &mut bb);
-        dest.fill_le_bytes(&bb, bps).map_err(|e| format!("{e}"))
+        bb.splice(0..0, std::iter::repeat(0xEEu8).take(off));
+        dest.fill_le_bytes(&bb[off..], bps).map_err(|e| format!("{e}"))
     }
+}
+
+fn do_fill<F: Fill>(dest: &mut F, block: &[i32], bps: usize) -> Result<(), String> {
+    do_fill_at(dest, block, bps, 0)
 }
 
 pub struct Stats {
@@ -218,9 +225,9 @@ fn exec_framebuf(
         let res = pan::catch(|| {
             if via_tuple && (st.bps == 0 || st.bps == ctx.bytes_per_sample()) {
                 let mut t = (&mut fb, &mut ctx);
-                do_fill(&mut t, &block, st.bps)
+                do_fill_at(&mut t, &block, st.bps, (i * 3 + 1) % 8)
             } else {
-                do_fill(&mut &mut fb, &block, st.bps)
+                do_fill_at(&mut &mut fb, &block, st.bps, (i * 3 + 1) % 8)
             }
         });
         stats.ops += 1;
@@ -289,7 +296,7 @@ fn exec_context(case: &Case, channels: usize, bits: usize, data_seed: u64, steps
     for (i, st) in steps.iter().enumerate() {
         let block = gen_block(&mut r, bits, st.len * channels);
         let res = pan::catch(|| {
-            let a = do_fill(&mut scripted, &block, st.bps);
+            let a = do_fill_at(&mut scripted, &block, st.bps, (i * 3 + 1) % 8);
             let b = do_fill(&mut ints, &block, 0);
             let c = do_fill(&mut bytes, &block, bps);
             (a, b, c)
